@@ -254,7 +254,7 @@ type runOut struct {
 
 // serve runs body (which calls Session.Serve) and tears the application state
 // down afterwards.
-func (rc runCfg) run(input string, serve func(s *xmpp.Session, h xmpp.Handler) error) (ro runOut) {
+func (rc runCfg) run(input string, serve func(s *xmpp.Session, h xmpp.Handler) (err error, wedged bool)) (ro runOut) {
 	w := &world{}
 	var h xmpp.Handler
 	switch rc.cfg {
@@ -268,8 +268,12 @@ func (rc runCfg) run(input string, serve func(s *xmpp.Session, h xmpp.Handler) e
 		if err != nil {
 			panic("c09: session setup failed: " + err.Error())
 		}
-		defer func() { ro.out = rw.Out.String(); ro.calls = w.calls }()
-		ro.serveErr = serve(s, h)
+		var wedged bool
+		ro.serveErr, wedged = serve(s, h)
+		if !wedged { // otherwise the parked Serve still owns the connection
+			ro.out = rw.Out.String()
+			ro.calls = w.calls
+		}
 		return ro
 	}
 
@@ -284,6 +288,13 @@ func (rc runCfg) run(input string, serve func(s *xmpp.Session, h xmpp.Handler) e
 	if rc.app&appIBB != 0 {
 		// the application listens for incoming IBB streams and accepts them
 		listener = w.ibbH.Listen(s)
+		if rc.app&appIBBGaveUp != 0 {
+			// ... and has earlier waited for one particular stream, negotiated out
+			// of band, until its context ended
+			gone, stop := context.WithCancel(ctx)
+			stop()
+			_, _ = listener.Expect(gone, roomJID, "s1")
+		}
 		wg.Add(1)
 		go func() {
 			defer wg.Done()
@@ -324,16 +335,20 @@ func (rc runCfg) run(input string, serve func(s *xmpp.Session, h xmpp.Handler) e
 		}()
 		rw.waitFor("</presence>")
 	}
-	defer func() {
-		cancel()
-		if listener != nil {
-			listener.Close()
-		}
-		wg.Wait()
-		ro.out = rw.String()
-		ro.calls = w.calls
-	}()
-	ro.serveErr = serve(s, h)
+	var wedged bool
+	ro.serveErr, wedged = serve(s, h)
+	cancel()
+	if wedged {
+		// Serve is parked for good and may hold locks the application state
+		// needs to wind down: leave everything behind.
+		return ro
+	}
+	if listener != nil {
+		listener.Close()
+	}
+	wg.Wait()
+	ro.out = rw.String()
+	ro.calls = w.calls
 	return ro
 }
 
